@@ -143,6 +143,13 @@ type leafCtx struct {
 	fileDeps   map[string]bool   // Gen modules of the leaves called
 	aliasOf    map[string]string // local name -> the slice parameter it is another name for
 	madeHere   map[string]bool   // byte buffers created by make in this function (capacity = length)
+
+	// eighth generation (leaf8.go)
+	logVars      map[string]bool   // parameters of type *slog.Logger (dropped)
+	recvName     string            // the receiver's name ("" = a plain function)
+	leanSelf     string            // Lean name of the definition being translated
+	needPrelude3 bool              // the definition uses Model/GoPrelude3.lean
+	opaque       map[string]string // parameters that are opaque foreign objects (leaf8.go: opaqueMethods) -> their type
 }
 
 func (c *leafCtx) fail(format string, a ...any) {
@@ -190,6 +197,13 @@ func (c *leafCtx) leanType(e ast.Expr) string {
 	if se, ok := e.(*ast.SelectorExpr); ok {
 		if id, ok := se.X.(*ast.Ident); ok && id.Name == "context" && se.Sel.Name == "Context" && c.gen7 {
 			return "Ctx"
+		}
+	}
+	if st, ok := e.(*ast.StarExpr); ok { // *T for a struct handled through Go.Ref (leaf8.go)
+		if id, ok := st.X.(*ast.Ident); ok {
+			if _, isRef := refStructs[c.dir+":"+id.Name]; isRef {
+				return "R_" + id.Name
+			}
 		}
 	}
 	if st, ok := e.(*ast.StarExpr); ok { // *[]T: the callee may reslice / replace the slice: modelled with its capacity
@@ -294,14 +308,24 @@ func convType(fun ast.Expr) string {
 	return ""
 }
 
-func externType(name string) string {
-	switch name {
-	case "ext_clkNow":
-		return "Int"
-	case "ext_Pow":
-		return "F64.F64"
+// powType: math.Pow is a parameter of function type, applied to the translated arguments of each
+// call site (eighth generation): the tie theorems see the arguments.
+const powType = "F64.F64 → F64.F64 → F64.F64"
+
+// externOfCallee: the parameter of the caller that stands for the callee's external value e
+// ("name : Type") read during the call at pos. Function-typed parameters (deterministic library
+// functions: same arguments, same value) and the iteration budget are handed on under their own
+// name; every other external value is a reading of mutable state outside the function and gets a
+// parameter of its own per call site.
+func (c *leafCtx) externOfCallee(pos token.Pos, calleeLean, e string) string {
+	parts := strings.SplitN(e, " : ", 2)
+	n := parts[0]
+	if !sharedExtern(n) {
+		short := strings.ReplaceAll(calleeLean[strings.Index(calleeLean, "_")+1:], ".", "_")
+		n = c.siteName(pos+token.Pos(len(n)), "ext_"+short+"_"+strings.TrimPrefix(n, "ext_"))
 	}
-	return "UInt64"
+	c.addExtern(n, parts[1])
+	return n
 }
 
 func (c *leafCtx) addExtern(name, typ string) {
@@ -407,12 +431,20 @@ func leanTypeName(t string) string {
 		return "Bool"
 	case "Opaque": // element of a slice the function only takes the length of
 		return "Unit"
+	case "Str":
+		return "String"
 	}
 	if strings.HasPrefix(t, "L_") {
 		return "(List " + leanTypeName(strings.TrimPrefix(t, "L_")) + ")"
 	}
 	if strings.HasPrefix(t, "C_") {
 		return "(Go.Slice " + leanTypeName(strings.TrimPrefix(t, "C_")) + ")"
+	}
+	if strings.HasPrefix(t, "R_") {
+		return "(Option (Go.Ref S_" + strings.TrimPrefix(t, "R_") + "))"
+	}
+	if strings.HasPrefix(t, "F:") {
+		return strings.TrimPrefix(t, "F:")
 	}
 	if strings.HasPrefix(t, "M:") {
 		parts := strings.Split(t, ":")
@@ -643,9 +675,10 @@ func (c *leafCtx) expr(e ast.Expr, want string) (string, string) {
 						return "(F64.sqrt " + a + ")", "F64"
 					}
 				case "timebase.Epoch":
-					if len(x.Args) == 0 {
-						c.addExtern("ext_Epoch", "UInt64")
-						return "ext_Epoch", "UInt64"
+					if len(x.Args) == 0 { // a reading of the global clock's epoch: one parameter per call site
+						n := c.siteName(x.Pos(), "ext_Epoch")
+						c.addExtern(n, "UInt64")
+						return n, "UInt64"
 					}
 				case "math.Ceil":
 					if len(x.Args) == 1 {
@@ -653,9 +686,11 @@ func (c *leafCtx) expr(e ast.Expr, want string) (string, string) {
 						return "(F64.ceil " + a + ")", "F64"
 					}
 				case "math.Pow":
-					if len(x.Args) == 2 { // not correctly rounded: its result is an input (one value per call of the leaf)
-						c.addExtern("ext_Pow", "F64.F64")
-						return "ext_Pow", "F64"
+					if len(x.Args) == 2 { // not correctly rounded: the function itself is an input, applied to the arguments of this call
+						a, _ := c.expr(x.Args[0], "F64")
+						b, _ := c.expr(x.Args[1], "F64")
+						c.addExtern("ext_Pow", powType)
+						return "(ext_Pow " + a + " " + b + ")", "F64"
 					}
 				}
 			}
@@ -663,12 +698,14 @@ func (c *leafCtx) expr(e ast.Expr, want string) (string, string) {
 			if inner, ok := f.X.(*ast.SelectorExpr); ok && inner.Sel.Name == "clk" {
 				if id, ok := inner.X.(*ast.Ident); ok && id.Name == c.recv && c.recv != "" && len(x.Args) == 0 {
 					switch f.Sel.Name {
-					case "Epoch":
-						c.addExtern("ext_clkEpoch", "UInt64")
-						return "ext_clkEpoch", "UInt64"
+					case "Epoch": // each call is a reading of its own (the clock is shared with other goroutines)
+						n := c.siteName(x.Pos(), "ext_clkEpoch")
+						c.addExtern(n, "UInt64")
+						return n, "UInt64"
 					case "Now":
-						c.addExtern("ext_clkNow", "Int")
-						return "ext_clkNow", "GoTime"
+						n := c.siteName(x.Pos(), "ext_clkNow")
+						c.addExtern(n, "Int")
+						return n, "GoTime"
 					}
 				}
 			}
@@ -702,8 +739,7 @@ func (c *leafCtx) expr(e ast.Expr, want string) (string, string) {
 			args = append(args, s)
 		}
 		for _, e := range c.extOf[name] {
-			c.addExtern(e, externType(e))
-			args = append(args, e)
+			args = append(args, c.externOfCallee(x.Pos(), ln, e))
 		}
 		if c.recvOf[name] {
 			c.fail("call of a receiver-updating method inside an expression")
@@ -898,6 +934,9 @@ func assigned(stmts []ast.Stmt, set map[string]bool) {
 }
 
 func isPanic(s ast.Stmt) bool {
+	if _, fatal := isFatal(s); fatal {
+		return true
+	}
 	if es, ok := s.(*ast.ExprStmt); ok {
 		if ce, ok := es.X.(*ast.CallExpr); ok {
 			if id, ok := ce.Fun.(*ast.Ident); ok && id.Name == "panic" {
@@ -1139,8 +1178,7 @@ func (c *leafCtx) block(stmts []ast.Stmt, tail string, ind string) string {
 							args = append(args, s)
 						}
 						for _, e := range c.extOf[name] {
-							c.addExtern(e, externType(e))
-							args = append(args, e)
+							args = append(args, c.externOfCallee(ce.Pos(), ln, e))
 						}
 						return "let " + c.recv + " : " + leanTypeName(c.vars[c.recv]) + " := (" + ln + " " + strings.Join(args, " ") + ")\n" + ind + c.block(rest, tail, ind)
 					}
@@ -1305,7 +1343,12 @@ func structFields(c0 *leafCtx, structs map[string][][2]string, name string, st *
 	var fs [][2]string
 	for _, fl := range st.Fields.List {
 		if _, ptr := fl.Type.(*ast.StarExpr); ptr {
-			continue // pointers (shared, possibly cyclic state) are outside the subset
+			if rt := c0.leanType(fl.Type); strings.HasPrefix(rt, "R_") { // pointer to an immutable struct: Go.Ref (leaf8.go)
+				for _, n := range fl.Names {
+					fs = append(fs, [2]string{n.Name, rt})
+				}
+			}
+			continue // other pointers (shared, possibly cyclic state) are outside the subset
 		}
 		lt := c0.leanType(fl.Type)
 		if at, ok := fl.Type.(*ast.ArrayType); ok && at.Len == nil && len(fl.Names) == 1 && capFields[c0.dir+":"+name+"."+fl.Names[0].Name] {
@@ -1322,6 +1365,11 @@ func structFields(c0 *leafCtx, structs map[string][][2]string, name string, st *
 		}
 		if lt == "" {
 			continue // a field outside the subset: leaves that use it fail to translate
+		}
+		if len(fl.Names) == 0 { // embedded struct of the package: a field named like its type (promoted selectors are refused: unknown field)
+			if id, ok := fl.Type.(*ast.Ident); ok && strings.HasPrefix(lt, "S_") {
+				fs = append(fs, [2]string{id.Name, lt})
+			}
 		}
 		for _, n := range fl.Names {
 			fs = append(fs, [2]string{n.Name, lt})
@@ -1424,7 +1472,7 @@ func emitLeaves(repo string, parsed map[string][]*ast.File, fset *token.FileSet,
 				continue
 			}
 			c := &leafCtx{dir: dir, files: files, ev: ev, structs: structs, vars: map[string]string{}, leafOf: leafOf, retOf: retOf,
-				extOf: extOf, recvOf: recvOf}
+				extOf: extOf, recvOf: recvOf, sites: map[token.Pos]string{}, nsite: map[string]int{}}
 			var params []string
 			addParam := func(n string, t ast.Expr) {
 				lt := c.leanType(t)
@@ -1546,7 +1594,7 @@ func emitLeaves(repo string, parsed map[string][]*ast.File, fset *token.FileSet,
 			retOf[l.fn] = ret
 			recvOf[l.fn] = c.recv != ""
 			for _, e := range c.externs {
-				extOf[l.fn] = append(extOf[l.fn], strings.SplitN(e, " : ", 2)[0])
+				extOf[l.fn] = append(extOf[l.fn], e)
 			}
 			li := &leafInfo{lean: l.lean, ret: ret, externs: append([]string{}, c.externs...), nparams: -1, file: "Leaf"}
 			if c.panics {
@@ -1575,9 +1623,13 @@ func emitLeaves(repo string, parsed map[string][]*ast.File, fset *token.FileSet,
 			changed = false
 			for _, n := range names {
 				for _, f := range structs[n] {
-					if strings.HasPrefix(f[1], "S_") && !used[strings.TrimPrefix(f[1], "S_")] {
-						used[strings.TrimPrefix(f[1], "S_")] = true
-						names = append(names, strings.TrimPrefix(f[1], "S_"))
+					ft := f[1]
+					if strings.HasPrefix(ft, "R_") {
+						ft = "S_" + strings.TrimPrefix(ft, "R_")
+					}
+					if strings.HasPrefix(ft, "S_") && !used[strings.TrimPrefix(ft, "S_")] {
+						used[strings.TrimPrefix(ft, "S_")] = true
+						names = append(names, strings.TrimPrefix(ft, "S_"))
 						changed = true
 					}
 				}
@@ -1586,7 +1638,7 @@ func emitLeaves(repo string, parsed map[string][]*ast.File, fset *token.FileSet,
 		sort.Slice(names, func(i, j int) bool { // a struct after the structs it contains
 			dep := func(a, b string) bool {
 				for _, f := range structs[a] {
-					if f[1] == "S_"+b {
+					if f[1] == "S_"+b || f[1] == "R_"+b {
 						return true
 					}
 				}
